@@ -117,18 +117,21 @@ impl<Wr: Write> XmlSerializer<Wr> {
             return true;
         }
 
-        let mut found = false;
         for stack in self.namespace_stack.0.iter().rev() {
             if let Some(Some(el)) = stack.get(&name.prefix) {
-                found = *el == name.ns;
-                break;
+                return *el == name.ns;
             }
         }
-        found
+
+        // Nothing is declared for the prefix.  That is the right binding only for
+        // an unprefixed name that is in no namespace.
+        name.prefix.is_none() && name.ns.is_empty()
     }
 
     fn find_or_insert_ns(&mut self, name: &QualName) {
-        if (name.prefix.is_some() || !name.ns.is_empty()) && !self.find_uri(name) {
+        // An unprefixed name in no namespace needs `xmlns=""` when an enclosing
+        // element declares a default namespace, so it is looked up like any other.
+        if !self.find_uri(name) {
             if let Some(last_ns) = self.namespace_stack.0.last_mut() {
                 last_ns.insert(name);
             }
